@@ -141,4 +141,74 @@ theorem rot_invRot (m : Iso3 K) (v : V3 K) (h : Unit3 m) :
     letI := fieldNum K sq
     m.rot (m.invRot v) = v := rotQ_rotQ_conj sq ⟨m.qi, m.qj, m.qk⟩ m.qw v h
 
+/-- the translation of the inverse has the same length -/
+theorem inverse_t_normSq (m : Iso3 K) (h : Unit3 m) :
+    letI := fieldNum K sq
+    m.inverse.t.normSq = m.t.normSq := by
+  have h' : (-m.qi) * (-m.qi) + (-m.qj) * (-m.qj) + (-m.qk) * (-m.qk) + m.qw * m.qw = 1 := by
+    unfold Unit3 at h; linear_combination h
+  have e := rotQ_dot sq ⟨-m.qi, -m.qj, -m.qk⟩ m.qw ⟨-m.t.x, -m.t.y, -m.t.z⟩ ⟨-m.t.x, -m.t.y, -m.t.z⟩ h'
+  obtain ⟨i, j, k, w, tx, ty, tz⟩ := m
+  simp only [Iso3.inverse, Iso3.qv, V3.normSq, V3.neg, V3.dot] at e ⊢
+  rw [e]; ring
+
+theorem fieldNum_neq (a b : K) : @Model.neq K (fieldNum K sq) a b = decide (a = b) := by
+  unfold Model.neq
+  rcases lt_trichotomy a b with h | h | h
+  · simp [h.le, not_le.mpr h, h.ne]
+  · simp [h]
+  · simp [h.le, not_le.mpr h, h.ne']
+
+/-- inverse rotation of a product: `(a·b)⁻¹ v = b⁻¹(a⁻¹ v)` -/
+theorem mul_invRot (a b : Iso3 K) (v : V3 K) (ha : Unit3 a) (hb : Unit3 b) :
+    letI := fieldNum K sq
+    (a.mul b).invRot v = b.invRot (a.invRot v) := by
+  have ha' : (-a.qi) * (-a.qi) + (-a.qj) * (-a.qj) + (-a.qk) * (-a.qk) + a.qw * a.qw = 1 := by
+    unfold Unit3 at ha; linear_combination ha
+  have hb' : (-b.qi) * (-b.qi) + (-b.qj) * (-b.qj) + (-b.qk) * (-b.qk) + b.qw * b.qw = 1 := by
+    unfold Unit3 at hb; linear_combination hb
+  have e := rotQ_qmul sq ⟨-b.qi, -b.qj, -b.qk⟩ b.qw ⟨-a.qi, -a.qj, -a.qk⟩ a.qw v hb' ha'
+  obtain ⟨a0, a1, a2, aw, ax, ay, az⟩ := a; obtain ⟨b0, b1, b2, bw, bx, by', bz⟩ := b; obtain ⟨x, y, z⟩ := v
+  simp only [qmulV, qmulW, Iso3.mul, Iso3.invRot, Iso3.qv, Iso3.qmul, Iso3.rotQ, V3.add, V3.neg, V3.smul, V3.cross,
+    fieldNum_two, V3.mk.injEq] at e ⊢
+  obtain ⟨e1, e2, e3⟩ := e
+  refine ⟨?_, ?_, ?_⟩
+  · linear_combination e1
+  · linear_combination e2
+  · linear_combination e3
+
+/-- inverse rotation of `a⁻¹·b`: `(a⁻¹b)⁻¹ v = b⁻¹(a v)` -/
+theorem invMul_invRot (a b : Iso3 K) (v : V3 K) (ha : Unit3 a) (hb : Unit3 b) :
+    letI := fieldNum K sq
+    (a.invMul b).invRot v = b.invRot (a.rot v) := by
+  have hb' : (-b.qi) * (-b.qi) + (-b.qj) * (-b.qj) + (-b.qk) * (-b.qk) + b.qw * b.qw = 1 := by
+    unfold Unit3 at hb; linear_combination hb
+  have e := rotQ_qmul sq ⟨-b.qi, -b.qj, -b.qk⟩ b.qw ⟨a.qi, a.qj, a.qk⟩ a.qw v hb' ha
+  obtain ⟨a0, a1, a2, aw, ax, ay, az⟩ := a; obtain ⟨b0, b1, b2, bw, bx, by', bz⟩ := b; obtain ⟨x, y, z⟩ := v
+  simp only [qmulV, qmulW, Iso3.invMul, Iso3.invRot, Iso3.rot, Iso3.qv, Iso3.qmul, Iso3.rotQ, V3.add, V3.neg, V3.smul,
+    V3.cross, fieldNum_two, V3.mk.injEq] at e ⊢
+  obtain ⟨e1, e2, e3⟩ := e
+  refine ⟨?_, ?_, ?_⟩
+  · linear_combination e1
+  · linear_combination e2
+  · linear_combination e3
+
+theorem invRot_sub (m : Iso3 K) (a b : V3 K) :
+    letI := fieldNum K sq
+    m.invRot (a.sub b) = (m.invRot a).sub (m.invRot b) := rotQ_sub sq _ _ a b
+
+theorem invRot_neg (m : Iso3 K) (a : V3 K) :
+    letI := fieldNum K sq
+    m.invRot a.neg = (m.invRot a).neg := rotQ_neg sq _ _ a
+
+theorem rot_sub (m : Iso3 K) (a b : V3 K) :
+    letI := fieldNum K sq
+    m.rot (a.sub b) = (m.rot a).sub (m.rot b) := rotQ_sub sq _ _ a b
+
+theorem V3.neg_sub' (a b : V3 K) :
+    letI := fieldNum K sq
+    (a.sub b).neg = b.sub a := by
+  simp only [V3.sub, V3.neg, V3.mk.injEq]
+  refine ⟨?_, ?_, ?_⟩ <;> ring
+
 end C03
